@@ -440,12 +440,8 @@ func writeCoqCases(path string, terms []*T, mask string) error {
 	fmt.Fprintln(w, "Open Scope N_scope.")
 	names := []string{}
 	for i, d := range terms {
-		txt := d.CoqString()
-		if len(txt) > 150000 && i > 0 {
-			// a case with a very long value list: Coq reads literals at ~15 KB/s; the extracted
-			// driver evaluates it, the vm_compute sample repeats the first case instead
-			txt = terms[0].CoqString()
-		}
+		_ = d
+		txt := sampleText(terms, i)
 		fmt.Fprintf(w, "Definition c_%d : pcase :=\n %s.\n", i, txt)
 		names = append(names, fmt.Sprintf("c_%d", i))
 	}
@@ -545,6 +541,8 @@ func main() {
 		os.Exit(2)
 	}
 	switch os.Args[1] {
+	case "dagpanic":
+		cmdDagPanic()
 	case "parse":
 		cmdParse(os.Args[2:])
 	case "tok":
